@@ -69,7 +69,7 @@ def build_request(obs, mn):
 def check_set(ctx, obs, reqs, metas):
     res = ctx.res
     g = obs['gen']
-    inp = {'seed': obs['seed'], 'texts': obs['texts']}
+    inp = {'seed': obs['seed'], 'texts': obs['texts'], 'run_set': obs.get('run_set')}
 
     def fail(key, what):
         res.oracle_failures.append({'key': key, 'what': what, 'input': inp})
@@ -190,6 +190,8 @@ def replay(payload):
     import json
     from impl import pipeline
     inp = payload['input']
+    if inp.get('run_set'):
+        return cg.replay_regenerated('C06', inp, lambda c, o: check_set(c, o, [], []), payload.get('key'))
     r, out, _ = pipeline.compile_set(inp['texts'], genTexts=True)
     bad = []
     for mod, exp in (inp.get('expect_compliance') or {}).items():
